@@ -3,7 +3,7 @@
 From Coq Require Import ZArith List Bool Lia.
 Import ListNotations.
 From Osmo Require Import Base.DecModel CL.TickMath CL.CLMath CL.CLPool CL.CLSwap CL.CLStep
-  CLR.Accum CLR.Rewards CLR.RSwap CLR.RStep C07.Base C07.LP C08.Claim C08.Dom C08.Paid C08.PaidOps C08.PaidHist C01.Full.
+  CLR.Accum CLR.Rewards CLR.RSwap CLR.RStep C07.Base C07.LP C08.Claim C08.Dom C08.Paid C08.PaidOps C08.PaidHist C08.ClaimInv C01.Full.
 Open Scope Z_scope.
 
 Lemma sum_claims_spec : forall rs l c, sum_claims (claimable_spread rs) (map ps_id l) = Some c ->
@@ -108,4 +108,28 @@ Proof.
   destruct (paid_run ops rs0 P0 Hssc) as [A [B _]]. fold rs in A, B.
   assert (SC : 0 < sc_of rs) by (rewrite B; exact Hssc).
   pose proof (zsum_member_le (claim_of d rs) _ q (fun p Hp => claim_of_nonneg rs d p A SC Hp) Hq). lia.
+Qed.
+
+(* ---------- the spread conjunct of Solv without the "queries succeed" hypothesis ---------- *)
+Lemma sum_claims_total : forall f ids, (forall id, In id ids -> f id <> None) -> exists c, sum_claims f ids = Some c.
+Proof.
+  induction ids as [|id r IH]; intro H; simpl; [eexists; reflexivity|].
+  destruct (f id) as [c|] eqn:E; [|exfalso; apply (H id); [left; reflexivity|exact E]].
+  destruct IH as [t ET]; [intros j Hj; apply H; right; exact Hj|]. rewrite ET. eexists; reflexivity.
+Qed.
+
+Theorem spread_covered_total : forall sp spf ssc isc users t ops, (0 < sp)%Z -> (0 <= spf <= 500000000000000000)%Z -> (P18 <= ssc)%Z ->
+  let rs0 := rinit sp spf ssc isc users t in
+  let rs := rrun rs0 ops in
+  (hist_pcost rs0 ops + Z.of_nat (length (s_pos (r_base rs))) < 2 * ssc)%Z ->
+  (forall p, In p (s_pos (r_base rs)) -> spread_range_ok rs p) ->
+  spread_covered rs.
+Proof.
+  intros sp spf ssc isc users t ops Hsp Hspf Hssc rs0 rs HK RG.
+  assert (Hssc0 : (0 < ssc)%Z) by (pose proof C08.Conseq.P18_pos; lia).
+  destruct (sum_claims_total (claimable_spread rs) (open_ids rs)) as [c HC].
+  { intros id Hid. unfold open_ids in Hid. apply in_map_iff in Hid. destruct Hid as [p [Ep HIn]]. subst id.
+    destruct (claimable_spread_succeeds_reachable sp spf ssc isc users t ops p Hsp Hspf Hssc HIn (RG p HIn)) as [x X].
+    fold rs0 in X. fold rs in X. rewrite X. discriminate. }
+  exists c. split; [exact HC|]. exact (spread_covered_reachable sp spf ssc isc users t ops c Hsp Hspf Hssc0 HK HC).
 Qed.
